@@ -168,6 +168,9 @@ def generate(rng, tier, index):
     if ops[-1]["op"] != "predict":
         ops.append(gen_predict(rng, recipe, iterative, allow, p_each))
     core.sticky_bundles(rng, ops)
+    for o in ops:
+        if o["op"] == "predict" and rng.random() < 0.08:
+            o["at"] = "train"  # predict exactly at the current training inputs
     if lowrank:
         # a LOVE prediction first (so that low-rank caches exist), an exact one right after it
         p1, p2 = gen_predict(rng, recipe, False, allow, p_each), gen_predict(rng, recipe, False, allow, p_each)
@@ -356,6 +359,9 @@ def observe_and_compare(ctx, i, op, through_lik=False, opname="predict"):
     out = ctx.out
     M = ctx.M
     args = test_args(ctx.recipe, op)
+    if op.get("at") == "train" and M.train_inputs is not None:
+        args = tuple(t.detach().clone() for t in M.train_inputs)
+        out.stats["probe:predict_at_training_inputs"] += 1
     b = op.get("bundle", [])
     created_now = M.prediction_strategy is None
     lazy_now = not bundles.has(b, "lazily_evaluate_kernels", state=False)
